@@ -117,3 +117,97 @@ theorem c15_get_from_ring_open (s : Proto.Sys) (p : PoolSt) (id : Nat) (rest : L
   simp only [hst, ho, if_true]
 
 end Props.C15
+
+/-! ### the ring arithmetic refines the bounded FIFO the pool model uses -/
+namespace Ring
+open List
+
+structure Inv (r : R) : Prop where
+  len : r.slots.length = r.cap
+  ord : r.head ≤ r.tail
+  bnd : r.tail - r.head ≤ r.cap
+
+theorem mod_inj {a b c : Nat} (hab : a ≤ b) (hlt : b < a + c) (h : a % c = b % c) : a = b := by
+  have h0 : (b - a) % c = 0 := Nat.sub_mod_eq_zero_of_mod_eq h.symm
+  have h1 : b - a < c := by omega
+  rw [Nat.mod_eq_of_lt h1] at h0
+  omega
+
+/-- push appends (when there is room) and refuses otherwise; nothing already pooled is disturbed -/
+theorem c15_ring_push (r : R) (s : Nat) (h : Inv r) :
+    ((abs r).length < r.cap → (push r s).2 = true ∧ abs (push r s).1 = abs r ++ [s] ∧ Inv (push r s).1) ∧
+    (¬ (abs r).length < r.cap → (push r s).2 = false ∧ (push r s).1 = r) := by
+  have hl : (abs r).length = r.tail - r.head := by simp [abs]
+  constructor
+  · intro hlt
+    rw [hl] at hlt
+    unfold push
+    rw [if_pos hlt]
+    have hc : 0 < r.cap := by omega
+    have hord := h.ord
+    refine ⟨rfl, ?_, ⟨by simp [h.len], by simp; omega, by simp; omega⟩⟩
+    simp only [abs]
+    have e : r.tail + 1 - r.head = (r.tail - r.head) + 1 := by have := h.ord; omega
+    rw [e, range_succ, map_append]
+    congr 1
+    · apply map_congr_left
+      intro i hi
+      have hi' := mem_range.mp hi
+      have hne : r.tail % r.cap ≠ (r.head + i) % r.cap := by
+        intro heq
+        have := mod_inj (a := r.head + i) (b := r.tail) (c := r.cap) (by omega) (by omega) heq.symm
+        omega
+      simp only [getD_eq_getElem?_getD]
+      rw [getElem?_set_ne hne]
+    · simp only [map_cons, map_nil, getD_eq_getElem?_getD]
+      have : r.head + (r.tail - r.head) = r.tail := by have := h.ord; omega
+      rw [this, getElem?_set_self (by rw [h.len]; exact Nat.mod_lt _ hc)]
+      rfl
+  · intro hge
+    rw [hl] at hge
+    unfold push
+    rw [if_neg hge]
+    exact ⟨rfl, rfl⟩
+
+/-- pop takes the oldest -/
+theorem c15_ring_pop (r : R) (h : Inv r) :
+    (abs r = [] → (pop r).2 = none ∧ (pop r).1 = r) ∧
+    (∀ a rest, abs r = a :: rest → (pop r).2 = some a ∧ abs (pop r).1 = rest ∧ Inv (pop r).1) := by
+  have hl : (abs r).length = r.tail - r.head := by simp [abs]
+  constructor
+  · intro he
+    rw [he] at hl
+    unfold pop
+    have : ¬ r.tail > r.head := by simp at hl; omega
+    rw [if_neg this]
+    exact ⟨rfl, rfl⟩
+  · intro a rest he
+    rw [he] at hl
+    have hgt : r.tail > r.head := by simp at hl; omega
+    unfold pop
+    rw [if_pos hgt]
+    have e : r.tail - r.head = (r.tail - (r.head + 1)) + 1 := by omega
+    simp only [abs] at he
+    rw [e, range_succ_eq_map, map_cons, map_map] at he
+    simp only [Nat.add_zero] at he
+    injection he with h1 h2
+    refine ⟨by rw [h1], ?_, ⟨h.len, by simp; omega, by have := h.bnd; simp; omega⟩⟩
+    simp only [abs]
+    rw [← h2]
+    apply map_congr_left
+    intro i _
+    simp only [Function.comp]
+    congr 2
+    omega
+
+theorem c15_ring_empty (cap age : Nat) : Inv (empty cap age) ∧ abs (empty cap age) = [] := by
+  refine ⟨⟨by simp [empty], Nat.le_refl _, by simp [empty]⟩, by simp [abs, empty]⟩
+
+/-- capacity 3, counters about to pass 2^32: three streams pushed, the second overwrote the first: the first one popped is not the first one pushed -/
+example :
+    let r0 := empty 3 (2 ^ 32 - 1)
+    let r3 := (push32 (push32 (push32 r0 11).1 12).1 13).1
+    (pop32 r3).2 = some 12 ∧ (pop (push (push (push r0 11).1 12).1 13).1).2 = some 11 := by decide
+
+
+end Ring
